@@ -15,17 +15,14 @@ Ltac inv_ok :=
 (* side conditions of the Moreau theorem, on top of [wf]:
    - classes without a proximal (Sum, InfimalConvolution, RightVectorMult, QuadraticForm) are
      excluded -- the premise "both proximals exist" is false for them anyway;
-   - a DefaultConvexConjugate node must not wrap a functional flagged linear (the flag of the
-     default conjugate is then wrong: the conjugate of <b, .> is an indicator);
    - a reflection f(s .) with s < 0 must not sit on a functional whose conjugate is flagged linear
      (the library then builds a LeftScalarMult with a negative scalar, whose proximal raises). *)
 Fixpoint D (e : fxR) : Prop :=
   match e with
   | FSum _ _ | FInfConv _ _ | FRightVec _ _ | FQuadS _ _ _ => False
   | FLp _ | FIndBall _ | FL2Sq | FConst _ | FIndZero _ | FHuber _ => True
-  | FLeft _ f | FScalarSum f _ | FTransl f _ | FQuadPert f _ _ _ | FBreg f => D f
+  | FLeft _ f | FScalarSum f _ | FTransl f _ | FQuadPert f _ _ _ | FBreg f | FDefConj f => D f
   | FRight s f => (s < 0 -> forall w f', @cconj R _ w f = Ok f' -> is_linear f' = false) /\ D f
-  | FDefConj f => is_linear f = false /\ D f
   | FSep2 _ f g => D f /\ D g
   end.
 
@@ -33,8 +30,7 @@ Fixpoint D (e : fxR) : Prop :=
 Fixpoint lwf (n : nat) (e : fxR) : Prop :=
   match e with
   | FLeft _ f | FRight _ f | FScalarSum f _ | FBreg f => lwf n f
-  | FQuadPert f a u c => length u = n /\ lwf n f /\ (is_linear f = true -> a = 0 -> c = 0)
-  | FDefConj f => is_linear f = false
+  | FQuadPert f _ u _ => length u = n /\ lwf n f
   | FSep2 k f g => (k <= n)%nat /\ lwf k f /\ lwf (n - k) g
   | _ => True
   end.
@@ -44,7 +40,7 @@ Proof.
   fxind e; intros n Hwf HD; cbn [wf D lwf] in *; auto; try tauto.
   - destruct Hwf; eauto.
   - destruct Hwf, HD; eauto.
-  - destruct Hwf as (? & ? & ? & ?). repeat split; eauto.
+  - destruct Hwf as (? & ? & ?). split; eauto.
   - destruct Hwf as (? & ? & ?), HD. repeat split; eauto.
 Qed.
 
